@@ -226,7 +226,7 @@ func C07(tier string) *core.Report {
 // whether the loop's post statement still runs.
 func jumpContextCorpus(tier string) []gen.List {
 	y, e := &gen.Stmt{K: "Y"}, &gen.Stmt{K: "E"}
-	loops := []string{"ForPostY", "ForInf"}
+	loops := []string{"ForPostY", "ForInf", "ForPostE"}
 	pres := []gen.List{{}, {y}}
 	if tier == "thorough" {
 		loops = []string{"ForPostY", "While", "ForInf", "For3", "ForPostE", "ForNoCond", "ForInitY"}
